@@ -19,7 +19,13 @@ class TealLabel(TealComponent):
         return self.label
 
     def assemble(self) -> str:
-        comment = "\n// {}\n".format(self.comment) if self.comment is not None else ""
+        comment = ""
+        if self.comment is not None:
+            # the comment (a subroutine name) may span several lines; every one must stay a comment
+            comment = "\n{}\n".format(
+                "\n".join("// {}".format(line) for line in self.comment.splitlines())
+                or "// "
+            )
         return "{}{}:".format(comment, self.label.getLabel())
 
     def __repr__(self) -> str:
